@@ -152,6 +152,10 @@ class World:
             return Choice(name, f"enum:{v.cls}")
         if isinstance(v, NT):
             return NT(v.cls, v.names, tuple(Opt(f"{name}.{n}") for n in v.names))
+        if isinstance(v, Ref) and isinstance(I.static_heap.get(v.addr), AMat):
+            return Unk(name, "array")
+        if isinstance(v, Unk) and v.typ == "array":
+            return Unk(name, "array")
         if isinstance(v, Ref):
             self._havoc(v, sublabel, seen)
             return v
